@@ -15,8 +15,11 @@ def blank(ev):
 
 def project(cs, evs):
     out, closed = [], set()
+    forced = False
     for e in evs:
         ev, s = e["ev"], e.get("s")
+        if ev == "released":
+            forced = True
         if s in closed and ev not in ("panic", "hang", "linger", "died"):
             continue
         if ev in ("wait", "begin", "end"):
@@ -25,7 +28,16 @@ def project(cs, evs):
                 ln[k] = e[k]
             out.append((ln, e))
         elif ev in ("case", "session", "parked", "return"):
-            out.append((blank(ev), e))
+            ln = blank(ev)
+            if ev == "session" and forced:
+                # the previous call did not end by itself (the harness closed the terminal under it): the undo list of the line
+                # it was editing is still there, "the line's initial content" is not what this call started with
+                ln["cmd"] = "dirty"
+            if ev == "session":
+                forced = False
+            out.append((ln, e))
+        elif ev == "released":
+            forced = True
         elif ev == "after":
             closed.add(s)
         elif ev in ("panic", "hang", "died", "linger"):
@@ -112,7 +124,50 @@ def run(rep, tier, seed):
                 if mode == "vi":
                     sess.append(keys(b"\x1b"))
                 sess += [keys(k) for k in ks]
+                sess += [keys(b"\r"), keys(b"\r")]      # leave the call by accepting: the next call starts from a clean state
                 cs["sessions"].append(sess)
+            cases.append(cs)
+    # (c) EVERY registered command by name (private binds), interleaved with undo and redo: the reference formulas do not
+    #     depend on what a command does, only on the buffers shown before and after it
+    avail = sorted(n for n in default_binds()["commands"] if not n.startswith("probe-"))
+    plain = [n for n in avail if n not in p_c06.ACCEPTING and n not in ("re-read-init-file", "undo", "redo", "vi-undo", "vi-redo")]
+    nbinds, nseqs = private_binds(plain)
+    nwords = 500 if tier == "quick" else 9000
+    # operators (commands that wait for a motion and run again after it) are used where they are bound, in the Vi command
+    # keymap: elsewhere ANY following command would be taken for their motion
+    OPERATORS = {"vi-change-to", "vi-delete-to", "vi-yank-to", "vi-up-case", "vi-down-case"}
+    for mode in ("emacs", "vi-insert", "vi-command"):
+        ws = []
+        pool = plain if mode == "vi-command" else [n for n in plain if n not in OPERATORS]
+        for _ in range(nwords // 3):
+            w = []
+            for _ in range(rng.randint(2, 7)):
+                r = rng.random()
+                if r < 0.55:
+                    n = rng.choice(pool)
+                    w.append(keys(nseqs[n]))
+                    if n in READERS:
+                        w.append(keys(rng.choice([b"a", b" ", b"(", b"b"])))
+                    if n in p_c06.UNTIL_ESC:
+                        w += [keys(b"zz"), keys(b"\x1b")]
+                elif r < 0.75:
+                    w.append(keys(b"\x1f") if mode == "emacs" else keys(b"\x1eub") if rng.random() < 0.3 else keys(b"\x1f") if mode == "vi-insert" else keys(b"u"))
+                elif r < 0.85:
+                    w.append(keys(b"\x1eua"))
+                else:
+                    w.append(keys(rng.choice([b"a", b"b c", b"(", b"x"])) if mode != "vi-command" else keys(rng.choice([b"x", b"ia\x1bl", b"A b\x1b"])))
+            k = rng.randint(0, 4)
+            und = keys(b"\x1f") if mode != "vi-command" else keys(b"u")
+            ws.append(w + [und] * k + [keys(b"\x1eua")] * rng.randint(0, k + 1))
+        for ci, chunk in enumerate(chunks(ws, 30)):
+            cs = {"id": "c07n-%s-%d" % (mode, ci), "inputrc": ("set editing-mode vi\n" if mode.startswith("vi") else "") +
+                  case_options(rng, ci, skip=("autocomplete", "history-autosuggest", "revert-all-at-newline")), "w": 80, "h": 24, "prompt": "> ",
+                  "binds": binds + nbinds, "sources": [{"name": "main", "kind": "mem", "lines": ["one", "two words", "three"]}],
+                  "comp": {"cands": CANDS, "byword": True}, "sessions": [], "setups": []}
+            for w in chunk:
+                b = rng.choice(["", "foo bar", "a (b) 'c' xyz", "ab\ncd"])
+                cs["setups"].append(setup(b, rng.randint(0, len(b)), mode))
+                cs["sessions"].append([SETUP_KEY] + w + [keys(b"\r"), keys(b"\r")])
             cases.append(cs)
     log("C07: %d scripts in %d cases" % (len(scripts), len(cases)))
 
@@ -129,7 +184,8 @@ def run(rep, tier, seed):
     run_session_property(rep, cases, project, "UndoTrace", "UndoTrace.cfg", "c07-run", nontrivial=nontrivial)
     rep.rule = ("every command word of length <= %d over {insert a, insert b, backward-delete-char, unix-word-rubout, yank, kill-line, backward-char, "
                 "undo, redo} followed by len+2 undos and len+2 redos (quick: seeded slice), plus seeded longer words over 20 emacs commands incl. "
-                "history walks, completion, case changes, revert-line, and vi insert-groups/operators with u and redo; non-trivial = distinct "
+                "history walks, completion, case changes, revert-line, and vi insert-groups/operators with u and redo, plus seeded words over EVERY "
+                "registered command (by private binding; operators only in the Vi command keymap) interleaved with undo / redo, from four start buffers in the three main keymaps; non-trivial = distinct "
                 "(undo/redo command, buffer before, buffer after) with a changed buffer" % maxlen)
     rep.exhaustive = tier == "thorough"
     rep.explanation = ("TLC checks the transcription of undo.go against the reference formulas on all command words up to the bound; the same "
